@@ -155,4 +155,20 @@ META = {
                  "assumed ideal; live connections with a tiny key-update window (hook h2) are not exercised."),
         "technique": "Lean 4 invariant proofs over the key-update state machine (two endpoints + adversarial channel) + regenerated-constant bridges + differential correspondence",
     },
+
+    "C11": {
+        "category": "proof",
+        "text": ("Lean theorems over transcriptions of the anti-amplification allowance counter, the stateless-reset length logic, the version "
+                 "negotiation decision table and the client Initial padding rule: a datagram is started only with allowance left, a produced "
+                 "stateless reset is strictly smaller than its trigger and none is sent when impossible (for every random draw), Version "
+                 "Negotiation only for Initial datagrams of at least 1200 bytes and never for a VN packet, client Initial datagrams padded. The "
+                 "quantitative 3x bound is false of the code after an overshoot (proved counterexample, known finding F4); proved instead: the "
+                 "bound with the forgiven-debt term, and the plain bound when nothing is received after an overshoot. Tie: 47 constants/operators "
+                 "re-extracted with bridge lemmas; the Lean driver is run against the real stateless_reset::encode_packet (all trigger lengths "
+                 "0..1500) and the real path::Path allowance counter (harness/vh-transport); wire-level oracle on end-to-end traces (lossy "
+                 "handshakes, client blackholed after its first Initial, stray datagrams of unknown connection id / version / VN / tiny sizes)."),
+        "note": ("Trusted: Lean kernel (standard axioms), tools/extract.py, vh-core / vh-transport / vh-e2e harnesses, python oracles. Which packets "
+                 "the connection chooses to build is not modelled; Negotiator and the datagram builder are tied by G and the wire oracle only."),
+        "technique": "Lean 4 theorems over allowance / reset-length / VN decision models + regenerated-constant bridges + differential and wire-level trace correspondence",
+    },
 }
